@@ -113,9 +113,11 @@ func (b *Writer) Available() int { return len(b.buf) - b.n }
 func (b *Writer) Write(p []byte) (nn int, err error) {
 	for len(p) > b.Available() && b.err == nil {
 		var n int
-		if b.n == 0 {
+		if b.n == 0 && !b.alignFlush {
 			// Large write, empty buffer.
 			// Write directly from p to avoid copy.
+			// (Not for block aligned writes: direct IO rejects the caller's unaligned slice with EINVAL,
+			// everything has to go through the aligned buffer.)
 			n, b.err = b.wr.Write(p)
 		} else {
 			n = copy(b.buf[b.n:], p)
